@@ -3,7 +3,7 @@
    ALL trees of M_tree.tree (any depth, any branching).  cow = true is the repaired code
    (fixes/C15.patch), cow = false the pinned shallow copy; statements with an arbitrary cow hold for both.
    shape_of t is what Python's == sees of a tree (keys in order and leaves; not the dict classes). *)
-From Coq Require Import ZArith NArith List Bool String.
+From Coq Require Import ZArith NArith List Bool String Permutation.
 From PB Require Import model.M_eq model.M_tree proofs.P_tree.
 Import ListNotations.
 
@@ -80,16 +80,25 @@ Theorem C15_pinned_refuted :
 Proof. eexists. eexists. vm_compute. repeat split; reflexivity. Qed.
 Print Assumptions C15_pinned_refuted.
 
-(* PARTIAL: table_to_tree then tree_to_table returns the row, for ONE row (pattern of >= 2 segments, distinct
-   wildcard names, wildcard values in key positions are strings): the row read back binds exactly the pattern's
-   wildcards, to the values of the original row.  Missing: several rows with unique paths (the rows come back as
-   the same set, in tree order) - covered by the correspondence and the oracle only. *)
-Theorem C15_table_tree_inverse_partial cow pat (r : row) it : row_item r pat = Some it -> fst it <> [] -> NoDup (wilds pat) ->
-  exists t w row', table_to_tree cow None pat [r] = Some (t, w) /\ tree_to_table t pat = [row'] /\
-                   (forall x, In x (wilds pat) -> lookup x row' = lookup x r) /\
-                   (forall x, ~ In x (wilds pat) -> lookup x row' = None).
-Proof. exact (table_tree_inverse_one_row cow pat r it). Qed.
-Print Assumptions C15_table_tree_inverse_partial.
+(* table -> tree -> table.  For ANY list of rows whose items under the pattern exist (rows_items: every wildcard is
+   bound, wildcard values in key positions are strings), a pattern of >= 2 segments with distinct wildcard names and
+   pairwise distinct paths (the tuples of key-position values): table_to_tree(None, pattern, rows) does not raise and
+   tree_to_table of the result is a permutation (the tree's order) of rows', where rows' lists, row for row, the
+   original rows restricted to the pattern's wildcards (row_agrees: same value for every wildcard, no other column). *)
+Theorem C15_table_tree_inverse cow pat rows its : rows_items rows pat = Some its -> (2 <= List.length pat)%nat ->
+  NoDup (wilds pat) -> NoDup (map fst its) ->
+  exists t w rows', table_to_tree cow None pat rows = Some (t, w) /\
+                    Permutation (tree_to_table t pat) rows' /\ Forall2 (row_agrees pat) rows rows'.
+Proof. exact (table_tree_inverse_rows cow pat rows its). Qed.
+Print Assumptions C15_table_tree_inverse.
+
+(* tree -> table -> tree, for every tree built from such rows: reading the table back and rebuilding gives the same tree *)
+Theorem C15_tree_table_tree_inverse cow cow' pat rows its : rows_items rows pat = Some its -> (2 <= List.length pat)%nat ->
+  NoDup (wilds pat) -> NoDup (map fst its) ->
+  exists t w t' w', table_to_tree cow None pat rows = Some (t, w) /\
+                    table_to_tree cow' None pat (tree_to_table t pat) = Some (t', w') /\ shape_of t' = shape_of t.
+Proof. exact (tree_table_tree_rows cow cow' pat rows its). Qed.
+Print Assumptions C15_tree_table_tree_inverse.
 
 (* non-vacuity: a depth-3 tree with distinct keys and non-empty branches; a leaf-vs-branch conflict both ways *)
 Example C15_example :
@@ -102,3 +111,21 @@ Example C15_example :
   row_item [("m", VStr "TY"); ("w", VNum false 6)] [SLit "markets"; SWild "m"; SLit "weight"; SWild "w"] =
     Some (["markets"; "TY"; "weight"], VNum false 6).
 Proof. vm_compute. repeat split; reflexivity. Qed.
+
+(* non-vacuity of the table hypotheses: three rows, interleaved prefixes, 3 wildcards and 2 literals; the rows come
+   back grouped by the tree's order (TY, TY, ES), i.e. a permutation, not the original order *)
+Example C15_table_example :
+  let pat := [SLit "markets"; SWild "m"; SWild "k"; SLit "w"; SWild "w"] in
+  let rows := [[("m", VStr "TY"); ("k", VStr "a"); ("w", VNum false 6); ("extra", VNone)];
+               [("w", VNum false 14); ("m", VStr "ES"); ("k", VStr "a")];
+               [("m", VStr "TY"); ("k", VStr "b"); ("w", VNone)]] in
+  let its := [(["markets"; "TY"; "a"; "w"], VNum false 6); (["markets"; "ES"; "a"; "w"], VNum false 14); (["markets"; "TY"; "b"; "w"], VNone)] in
+  rows_items rows pat = Some its /\ (2 <= List.length pat)%nat /\ NoDup (wilds pat) /\ NoDup (map fst its) /\
+  option_map (fun r => tree_to_table (fst r) pat) (table_to_tree true None pat rows) =
+    Some [[("w", VNum false 6); ("k", VStr "a"); ("m", VStr "TY")]; [("w", VNone); ("k", VStr "b"); ("m", VStr "TY")];
+          [("w", VNum false 14); ("k", VStr "a"); ("m", VStr "ES")]].
+Proof.
+  cbv zeta. split; [vm_compute; reflexivity|]. split; [simpl; repeat constructor|].
+  split; [simpl; repeat constructor; simpl; intuition discriminate|].
+  split; [simpl; repeat constructor; simpl; intuition discriminate|]. vm_compute. reflexivity.
+Qed.
